@@ -26,7 +26,7 @@ func checkC03(r *Run) {
 		return
 	}
 	c.ruleTaskQueueing(nil, r3)
-	c.ruleRetryRequeue(r5, nil, "exact")
+	c.ruleRetryRequeue(r5, nil, "order")
 	c.ruleAcceptedEnqueued(r7)
 
 	// --- R-C03-1
